@@ -208,6 +208,8 @@ def cases(tier):
                                    'nsym': 2 if nmod == 1 or thorough else 1, 'nfailsym': 2 if nmod == 1 or thorough else 1}})
     out.append({'fn': 'run_poll', 'id': 'different-slow-intervals', 'params': {'interval': 1, 'slow': 2, 'slow2': 60, 'nmod': 2, 'K': 14,
                                                                              'change': None, 'nsym': 0, 'nfailsym': 1, 'concrete_t0': True, 'maxpolls': 60}})
+    out.append({'fn': 'run_poll', 'id': 'different-slow-intervals/owner-slow', 'params': {'interval': 1, 'slow': 60, 'slow2': 2, 'nmod': 2, 'K': 14,
+                                                                                        'change': None, 'nsym': 0, 'nfailsym': 1, 'concrete_t0': True, 'maxpolls': 60}})
     out.append({'fn': 'run_poll', 'id': 'persistent-failure', 'params': {'interval': 1, 'slow': 2, 'nmod': 2, 'K': 12, 'change': None,
                                                                        'nsym': 0, 'nfailsym': 0, 'persistent': True, 'maxpolls': 60}})
     out.append({'fn': 'run_poll', 'id': 'change-fast2', 'params': {'interval': 5, 'slow': 15, 'nmod': 1, 'nsym': 1, 'nfailsym': 0,
